@@ -178,12 +178,65 @@ impl Prop for Twins {
     }
 }
 
+/// "Content an undo manager still needs is not collected": the isolated undo programs of C12 (same
+/// case type, same dump-sequence oracle) with forced GC as a frequent step, text-heavy edits with many
+/// removals, on documents with and without automatic GC.
+pub struct UndoGc;
+
+impl Prop for UndoGc {
+    type Case = crate::props::c12::ICase;
+    fn name(&self) -> &'static str {
+        "undo-gc"
+    }
+    fn cases(&self, tier: Tier) -> u64 {
+        tier.pick(60_000, 2_000_000)
+    }
+    fn strategy(&self, tier: Tier) -> BoxedStrategy<Self::Case> {
+        use crate::props::c12::{ICase, IStep};
+        let mut p = Profile::all();
+        p.text *= 3;
+        p.remove_weight = 6;
+        p.subdocs = false;
+        let step = prop_oneof![
+            8 => (txn_ops(&p, 3), prop::bool::weighted(0.6)).prop_map(|(ops, gap)| IStep::Edit { ops, gap }),
+            4 => Just(IStep::Undo),
+            2 => Just(IStep::Redo),
+            1 => Just(IStep::Reset),
+            4 => Just(IStep::Gc),
+        ];
+        (cfgs_strategy(1..=1, false), any::<bool>(), 0u8..4, prop::collection::vec(step, 3..=tier.pick(22, 36)))
+            .prop_map(|(mut cfgs, cleanup, scope, steps)| {
+                cfgs[0].cleanup = cleanup;
+                ICase { cfg: cfgs.remove(0), scope, steps }
+            })
+            .boxed()
+    }
+    fn check(&self, case: &Self::Case, st: &mut CaseStats) -> Result<(), Fail> {
+        let r = crate::props::c12::Isolated.check(case, st);
+        // non-trivial here: a forced GC between a captured deletion and an undo
+        let mut seen_gc_after_edit = false;
+        let mut edited = false;
+        for s in case.steps.iter() {
+            match s {
+                crate::props::c12::IStep::Edit { .. } => edited = true,
+                crate::props::c12::IStep::Gc if edited => seen_gc_after_edit = true,
+                crate::props::c12::IStep::Undo if seen_gc_after_edit => {
+                    st.nt();
+                    break;
+                }
+                _ => {}
+            }
+        }
+        r
+    }
+}
+
 pub fn property() -> Property {
     Property {
         id: "C15",
         level: "exploration",
-        rule: "histories as in C01 rich in deletions (plain content, nested subtrees, map overwrites, formatting) with forced GC (gc(None) or gc(Some(delete set))) injected on authors at generated points; the complete update set is then delivered under a generated schedule to a GC-enabled and a GC-disabled twin which are compared after every delivery (forced GC injected on the GC twin); authors with mixed GC settings are flushed and compared; every collected replica's full state (v1 and v2) is rebuilt into a fresh document.  Non-trivial = the GC twin really collected blocks; distinct = distinct generated case".into(),
-        assumptions: vec!["equality is the canonical dump".into(), "the undo/GC interplay clause is checked by the undo part of this property (C12 machinery)".into()],
-        parts: vec![Box::new(Part(Twins))],
+        rule: "histories as in C01 rich in deletions (plain content, nested subtrees, map overwrites, formatting) with forced GC (gc(None) or gc(Some(delete set))) injected on authors at generated points; the complete update set is then delivered under a generated schedule to a GC-enabled and a GC-disabled twin which are compared after every delivery (forced GC injected on the GC twin); authors with mixed GC settings are flushed and compared; every collected replica's full state (v1 and v2) is rebuilt into a fresh document; undo-gc: programs of tracked edits / undo / redo / reset with forced GC as a frequent step on one document, dump-sequence model of C12 (undo yields the previous distinct dump although GC ran in between).  Non-trivial = the GC twin really collected blocks / an undo follows a forced GC that follows an edit; distinct = distinct generated case".into(),
+        assumptions: vec!["equality is the canonical dump".into(), "the undo-gc part reuses the isolated undo model of C12 (same case type and oracle, other step weights)".into()],
+        parts: vec![Box::new(Part(Twins)), Box::new(Part(UndoGc))],
     }
 }
